@@ -36,7 +36,7 @@ ASSUMPTIONS = ["reference model: reads are no-ops, selections are snapshots, a[.
                "known finding 'lazy-view-write-through' is classified by an explicit buffer-sharing model; only deviations equal to that model are attributed to it"]
 REQUIRED_FEATURES = ["pending_selection", "read_materialises", "read_is_self_loop", "write_after_read", "alias_derivation",
                      "three_variables", "selection_of_selection", "write_through_alias"]
-BOUNDS = {"quick": "2 base arrays, 3 variables, every history of depth <= 4 over 9 selectors x 6 writes x 18 reads (all variables / sources), "
+BOUNDS = {"quick": "2 base arrays, 3 variables, every history of depth <= 4 over 9 selectors x 6 writes x 20 reads (all variables / sources), "
                    "plus depth 5 for histories whose first two steps are derivations",
           "thorough": "3 base arrays, depth <= 5 complete, depth 6 after two derivations"}
 
@@ -55,7 +55,7 @@ WRITES = ["row0", "col0", "fill", "cell", "rows1", "from"]
 # read name -> touches (materialises a pending variable)?
 READS = {"meta": False, "repr": True, "tolist": True, "ravel": True, "x[0]": True, "x[1:]": False, "x[:,::-1]": False,
          "x[0,0]": True, "x+1": True, "sum-1": True, "sum0": True, "concat": True, "x[...]": True, "x+y": True,
-         "x[:,::2]": False, "x[mask]": True, "rslice": True, "col_counts": False}
+         "x[:,::2]": False, "x[mask]": True, "rslice": True, "col_counts": False, "x*fcol": True, "argmax": True}
 VARS = ["a", "b", "c"]
 
 
@@ -225,6 +225,8 @@ def enabled(snap):
                 continue
             if r in ("sum0", "col_counts") and not any(rows):
                 continue
+            if r == "argmax" and (n < 1 or not all(rows)):
+                continue
             if r == "x+y":
                 for y in live:
                     if y != x and snap.lens(y) == snap.lens(x):
@@ -289,6 +291,11 @@ def do_read(x, r, y=None):
         return ragged_slice(x, np.minimum(1, np.asarray(x.lengths)))
     if r == "col_counts":
         return x.col_counts()
+    if r == "x*fcol":
+        from mc.checks.c06 import _fcol
+        return x * _fcol(x)          # only an exact, row-independent broadcast survives inf / 1e17 / decimals
+    if r == "argmax":
+        return x.argmax(axis=-1)
     raise ValueError(r)
 
 
